@@ -298,6 +298,7 @@ def sect_conv(b, a):
             alt(a, 'pv') == sdt_val(val(alt(b, 'sv')._matcher.type.datatype), alt(b, 'sv')))
 
 
+@opaque(['Ref[info.BaseInfo]', 'MItem', 'MItem'], 'bool', reveal=['matcher.BaseMatcher.constuct'])
 def mitem_conv(ci, b, a):
     """Entry of a wildcard key's mapping: a single value, or (wildcard multikey) the list of values
     in file order."""
@@ -343,6 +344,73 @@ def conv_ok(ci, b, a):
     if is_alt(b, 'none'):
         return is_alt(a, 'none')
     return is_alt(b, 'vi') and is_alt(a, 'pv') and alt(a, 'pv') == dt_val(val(ci.datatype), alt(b, 'vi').value)
+
+
+def kmap_kinds_ok(ci, m):
+    """Entries of a wildcard key's mapping before conversion: one collected value per key, or
+    (wildcard multikey) a list of collected values per key.  (Written as a conjunction of guarded
+    clauses rather than if / else: the verifier skolemises and instantiates through `and` / `implies`.)"""
+    return (implies(ci.maxOccurs > 1,
+                    forall('str', lambda x: implies(x in m, is_alt(m[x], 'lst'))) and
+                    forall('str', 'int', lambda x, j: implies(x in m and 0 <= j and j < len(alt(m[x], 'lst')),
+                                                              is_alt(alt(m[x], 'lst')[j], 'vi')))) and
+            implies(not (ci.maxOccurs > 1), forall('str', lambda x: implies(x in m, is_alt(m[x], 'vi')))))
+
+
+def sv_ready(sv):
+    """A section value can be converted: the type it was matched against has a section datatype."""
+    return sv._matcher.type.datatype is not None
+
+
+KEY_SLOT_WRITERS = ['matcher.BaseMatcher.__init__', 'matcher.BaseMatcher.addValue', 'matcher.SectionMatcher.__init__',
+                    'cmdline.MatcherMixin.addValue',
+                    'info.KeyInfo.__init__', 'info.KeyInfo.add_valueinfo', 'info.KeyInfo.computedefault',
+                    'info.MultiKeyInfo.__init__', 'info.MultiKeyInfo.add_valueinfo', 'info.MultiKeyInfo.computedefault',
+                    'info.BaseKeyInfo.adddefault', 'info.BaseKeyInfo.prepare_raw_defaults', 'info.BaseKeyInfo.finish',
+                    'info.SchemaType.deriveSectionType']
+
+
+@opaque(['Ref[info.BaseInfo]', 'Slot'], 'bool', reveal=['matcher.BaseMatcher.constuct'], inline_in=KEY_SLOT_WRITERS)
+def key_kinds_ok(ci, slot):
+    """What the slot of a KEY child (or the declared defaults of a key) holds before conversion (C02,
+    C07): collected values (ValueInfo) only - one, a list, or a mapping to one / to lists - never an
+    already converted value."""
+    return (implies(is_wildcard_key(ci), is_alt(slot, 'kmap') and kmap_kinds_ok(ci, alt(slot, 'kmap'))) and
+            implies(not is_wildcard_key(ci) and ci.maxOccurs > 1,
+                    is_alt(slot, 'lst') and forall(lambda j: implies(0 <= j and j < len(alt(slot, 'lst')),
+                                                                     is_alt(alt(slot, 'lst')[j], 'vi')))) and
+            implies(not is_wildcard_key(ci) and not (ci.maxOccurs > 1), is_alt(slot, 'none') or is_alt(slot, 'vi')))
+
+
+@opaque(['Ref[info.BaseInfo]', 'Slot'], 'bool', reveal=['matcher.BaseMatcher.constuct'],
+        inline_in=['matcher.BaseMatcher.__init__', 'matcher.SectionMatcher.__init__', 'matcher.BaseMatcher.addSection'])
+def sect_kinds_ok(ci, slot):
+    """What the slot of a SECTION child holds before conversion: section values whose type has a
+    section datatype - nothing, one, or a list of them in file order."""
+    return (implies(ci.maxOccurs > 1,
+                    is_alt(slot, 'lst') and forall(lambda j: implies(
+                        0 <= j and j < len(alt(slot, 'lst')),
+                        is_alt(alt(slot, 'lst')[j], 'sv') and sv_ready(alt(alt(slot, 'lst')[j], 'sv'))))) and
+            implies(not (ci.maxOccurs > 1), is_alt(slot, 'none') or (is_alt(slot, 'sv') and sv_ready(alt(slot, 'sv')))))
+
+
+def kinds_ok(ci, slot):
+    """What a slot holds BEFORE its container is converted (C02, C07): collected values
+    (ValueInfo) for keys, section values for section slots - never an already converted value."""
+    return (implies(isa(ci, 'info.SectionInfo'), sect_kinds_ok(ci, slot)) and
+            implies(not isa(ci, 'info.SectionInfo'), key_kinds_ok(ci, slot)))
+
+
+@opaque(['Ref[info.BaseInfo]'], 'bool',
+        reveal=['schema.BaseParser.start_key', 'schema.BaseParser.start_multikey', 'info.SectionType.addsection',
+                'matcher.BaseMatcher.constuct'],
+        inline_in=['matcher.BaseMatcher.finish', 'info.SchemaType.deriveSectionType'])
+def child_ready(ci):
+    """A child can have its collected values converted (C02, C07): a key has a datatype and its
+    declared defaults are collected values (never converted ones)."""
+    if isa(ci, 'info.SectionInfo'):
+        return True
+    return isa(ci, 'info.BaseKeyInfo') and ci.datatype is not None and key_kinds_ok(ci, default_of(ci))
 
 
 # ---- wildcard-key defaults re-normalised under a key type (C10, C11) -------------------------------------------------
